@@ -216,15 +216,24 @@ func genC03(r *simrt.Rand, tier string, idx uint64) *Plan {
 		f.AtOp = 1 + int((off/2)%uint64(total))
 	}
 	p.Faults = []Fault{f}
-	p.Params = map[string]int{"conv": int(conv), "est": est}
+	p.Params = map[string]int{"conv": int(conv), "est": est, "settle": 1}
 	return p
 }
 
 func checkC03(w *World, run *simrt.Run) {
 	// (a) nobody hangs: every call has completed by the end of the run
+	// the moment the connection was lost (byte-offset cut, or the operation-triggered fault)
+	lost := w.FaultSeq
+	if pipe := w.ConnPipe[0]; pipe != nil && pipe.CutBy != "" && (lost == 0 || pipe.CutSeq < lost) {
+		lost = pipe.CutSeq
+	}
 	for _, c := range w.Calls {
 		if !c.Returned {
 			w.Violate("C03.caller-hangs", "caller-hangs:"+c.Form, descCall(c)+": still outstanding after the connection ended and was torn down")
+		} else if lost != 0 && w.TeardownSeq != 0 && lost < w.TeardownSeq && c.Invoke < w.TeardownSeq && c.Return > w.TeardownSeq {
+			// the harness waits a second of simulated quiet before it tears the world down (which
+			// closes the connection once more and releases whatever was still waiting)
+			w.Violate("C03.caller-hangs", "caller-released-only-by-teardown:"+c.Form, descCall(c)+": the connection was lost, the call was still outstanding a second later and only completed when the harness closed everything")
 		}
 	}
 	for _, s := range w.Streams {
